@@ -94,3 +94,12 @@ Theorem C10_own_json_output_detected :
     snd (detect sched cutoff toml_parses (msgpack_slice_trial utf8) json_slice_trial ty
            (start (HSlice (jwrite_docs json_f64 (v :: vs))))) = Ok (Some Json).
 Proof. exact own_json_output_detected. Qed.
+
+(* And for MessagePack, with the trial concrete as well: the encoding of any
+   encodable array or map, whatever follows it, is detected as MessagePack
+   (theories/MsgpackTrialProofs.v; the later trials universally quantified). *)
+Theorem C10_own_msgpack_output_detected :
+  forall (sched : nat -> nat) (cutoff : nat) (toml_parses utf8 : bytes -> bool) (tj ty : trial) (v : mval) (tail : bytes),
+    encodable utf8 v -> MsgpackCodecProofs.is_collection v = true ->
+    snd (detect sched cutoff toml_parses (msgpack_slice_trial utf8) tj ty (start (HSlice (enc_val v ++ tail)))) = Ok (Some Msgpack).
+Proof. exact own_msgpack_output_detected. Qed.
